@@ -111,6 +111,19 @@ class Explorer:
         self._learn(b, True)
         self.path.assume_tags.append(tag)
 
+    def concretize(self, x, lo, hi):
+        """exhaustive concretisation of a bounded integer term by forking: every value in lo..hi the
+        path condition admits gets its own path"""
+        if not isinstance(x, S.Sym):
+            return int(x)
+        v = x.const_value()
+        if v is not None:
+            return int(v)
+        for k in range(lo, hi + 1):
+            if self.decide(X.eq(x.re, X.const(k, "I"))):
+                return k
+        raise PathAbort()
+
     # ---- driver
     def explore(self, fn):
         """run fn() once per path; fn registers obligations through the Ctx bound to this explorer.
@@ -229,6 +242,20 @@ class Ctx:
         else:
             if not bool(cond):
                 raise PreconditionFailed(tag)
+
+    def lemma_sos(self, terms):
+        """Mathematical lemma handed to the path condition: sum_i |t_i|^2 >= 0 for harness-built terms
+        t_i.  (Justification: instance of  forall s. sum s_i^2 >= 0.)  It lets the explorer discard the
+        exact-arithmetic-infeasible `x < 0` branches that the code keeps for float round-off."""
+        if not self.symbolic:
+            return
+        acc = X.ZERO
+        for t in np.asarray(terms, dtype=object).reshape(-1):
+            t = S._lift(t)
+            acc = X.add(acc, X.mul(t.re, t.re))
+            if t.im is not None:
+                acc = X.add(acc, X.mul(t.im, t.im))
+        self.explorer.assume(X.le(X.ZERO, acc), "lemma:sum-of-squares>=0")
 
     # ---- relations (return B in symbolic mode, bool in concrete mode)
     def eq(self, a, b, scale=None):
